@@ -467,4 +467,4 @@ mod tests {
 
 #[cfg(kani)]
 #[path = "/verif/kani/matrix.rs"]
-mod verif_kani;
+pub(crate) mod verif_kani;
